@@ -109,6 +109,10 @@ fn strip_times(v: &mut Value) {
         Value::Object(m) => {
             m.remove("validationTime");
             m.remove("validation_time");
+            // the list of ingredient deltas is a set keyed by the ingredient assertion URI: order is not content
+            if let Some(Value::Array(a)) = m.get_mut("ingredientDeltas") {
+                a.sort_by_key(|d| d["ingredientAssertionURI"].as_str().unwrap_or("").to_string());
+            }
             for (_, x) in m.iter_mut() {
                 strip_times(x);
             }
@@ -157,8 +161,12 @@ pub fn codes(r: &Reader) -> Value {
                 for s in d.validation_deltas().failure() {
                     one.push(json!(["failure", s.code()]));
                 }
-                deltas.push(Value::Array(one));
+                deltas.push(json!([d.ingredient_assertion_uri(), one]));
             }
+            deltas.sort_by_key(|d| d[0].as_str().unwrap_or("").to_string());
+            let deltas: Vec<Value> = deltas.into_iter().map(|d| d[1].clone()).collect();
+            return json!({"present": r.validation_results().map(|v| v.active_manifest().is_some()).unwrap_or(false),
+                          "active": active, "deltas": deltas, "state": state_str(r)});
         }
     }
     json!({"present": r.validation_results().map(|v| v.active_manifest().is_some()).unwrap_or(false),
